@@ -147,7 +147,11 @@ class TaskGroup(AbstractTaskGroup):
         loop = asyncio.get_running_loop()
         waiter: asyncio.Future[None] = loop.create_future()
 
-        task = Task(self.__asyncio_tg.create_task(self.__task_coroutine(coro_func, args, waiter), name=name))
+        asyncio_task = self.__asyncio_tg.create_task(self.__task_coroutine(coro_func, args, waiter), name=name)
+        # If the task group aborts right now, the task is cancelled before its first step and will never wake up the waiter.
+        asyncio_task.add_done_callback(lambda _, waiter=waiter: waiter.cancel())  # type: ignore[misc]
+        task = Task(asyncio_task)
+        del asyncio_task
 
         try:
             await waiter
